@@ -45,3 +45,16 @@ for nid, out in res:
         print(f"{nid}: {prop} {rule[:230]}")
         if verbose and wit: print(f"      {wit[:400]}")
 print(f"{clean}/{len(res)} silent")
+# reference matrix for the thorough tier: per refactoring, "silent", "undecided" or "alarm"
+if not args:
+    mx = {}
+    for nid, out in res:
+        if out is None:
+            mx[nid] = "patch-does-not-apply"
+        elif not out:
+            mx[nid] = "silent"
+        elif all(p == '-' for p, _, _ in out):
+            mx[nid] = "undecided"
+        else:
+            mx[nid] = "alarm"
+    json.dump(mx, open('/verif/neutral/MATRIX.json', 'w'), indent=1, sort_keys=True)
